@@ -1886,12 +1886,9 @@ int sm2_z256_point_from_octets(SM2_Z256_POINT *P, const uint8_t *in, size_t inle
 {
 	switch (*in) {
 	case SM2_point_at_infinity:
-		if (inlen != 1) {
-			error_print();
-			return -1;
-		}
-		sm2_z256_point_set_infinity(P);
-		break;
+		// the point at infinity is never a valid public key, peer share or ciphertext point
+		error_print();
+		return -1;
 	case SM2_point_compressed_y_even:
 		if (inlen != 33) {
 			error_print();
@@ -1917,8 +1914,8 @@ int sm2_z256_point_from_octets(SM2_Z256_POINT *P, const uint8_t *in, size_t inle
 			error_print();
 			return -1;
 		}
-		sm2_z256_point_from_bytes(P, in + 1);
-		if (sm2_z256_point_is_on_curve(P) != 1) {
+		// checks both coordinates < p, the curve equation and rejects (0, 0)
+		if (sm2_z256_point_from_bytes(P, in + 1) != 1) {
 			error_print();
 			return -1;
 		}
